@@ -1,5 +1,5 @@
 (* entry points for the pure string functions *)
-From PM Require Import Model.EntryBase Model.Nvra Model.ReleaseId Model.ComposeId Base.Regex Gen.Regexes Gen.Tables.
+From PM Require Import Model.EntryBase Model.Nvra Model.ReleaseId Model.ComposeId Base.Regex Base.RegexCost Gen.Regexes Gen.Tables.
 
 Definition p_nvra (p : nvra) : pyval :=
   PDict [(lit "name", PStr (n_name p)); (lit "epoch", PN (n_epoch p)); (lit "version", PStr (n_version p));
@@ -110,12 +110,40 @@ Definition ep_get_date_type_respin (v : pyval) : pyval :=
 Definition ep_compose_id_valid (v : pyval) : pyval :=
   match v with PStr s => PBool (compose_id_valid s) | _ => bad_input end.
 
+Definition PNat (n : nat) : pyval := PN (N.of_nat n).
+
+Definition ep_rx_info (v : pyval) : pyval :=
+  match v with
+  | PStr name =>
+      match assoc name all_regexes with
+      | None => bad_input
+      | Some r => PList [PBool (supported r); PBool (safe r); PNat (fst (WP r)); PNat (snd (WP r));
+                         PNat (fst (EP r)); PNat (snd (EP r))]
+      end
+  | _ => bad_input
+  end.
+
+Definition ep_rx_steps (v : pyval) : pyval :=
+  match v with
+  | PList [PStr name; PStr s] =>
+      match assoc name all_regexes with
+      | None => bad_input
+      | Some r => PNat (match_steps r s)
+      end
+  | _ => bad_input
+  end.
+
+Definition ep_rx_names (_ : pyval) : pyval := PList (map (fun p => PStr (fst p)) all_regexes).
+
 Definition entries_str : list (str * (pyval -> pyval)) :=
   [ (lit "parse_nvra", ep_parse_nvra);
     (lit "parse_nvra_re", ep_parse_nvra_re);
     (lit "format_nevra", ep_format_nevra);
     (lit "check_nevra", ep_check_nevra);
     (lit "rx_match", ep_rx_match);
+    (lit "rx_info", ep_rx_info);
+    (lit "rx_steps", ep_rx_steps);
+    (lit "rx_names", ep_rx_names);
     (lit "create_release_id", ep_create_release_id);
     (lit "parse_release_id", ep_parse_release_id);
     (lit "valid3", ep_valid3);
